@@ -6,6 +6,7 @@ import datetime
 import enum
 
 import attr
+import dateutil.tz
 import six
 
 from cryptodatahub.common.algorithm import Authentication, NamedGroup, Signature
@@ -390,7 +391,7 @@ class DnsNameUncompressed(ParsableBase, Serializable):
 
 @attr.s
 class DnsRecordRrsig(ParsableBase):  # pylint: disable=too-many-instance-attributes
-    HEADER_SIZE = 24
+    HEADER_SIZE = 19
 
     type_covered = attr.ib(validator=attr.validators.instance_of((DnsRrType, DnsRrTypePrivate)))
     algorithm = attr.ib(validator=attr.validators.instance_of(DnsSecAlgorithm))
@@ -411,6 +412,11 @@ class DnsRecordRrsig(ParsableBase):  # pylint: disable=too-many-instance-attribu
         metadata={'human_friendly': False}
     )
 
+    @staticmethod
+    def _timestamp_to_date_time(timestamp):
+        # every 32-bit value is a point in time here, there is no 'forever' value (RFC 4034 section 3.1.5)
+        return datetime.datetime.fromtimestamp(timestamp, dateutil.tz.UTC)
+
     @classmethod
     def _parse(cls, parsable):
         if len(parsable) < cls.HEADER_SIZE:
@@ -425,8 +431,8 @@ class DnsRecordRrsig(ParsableBase):  # pylint: disable=too-many-instance-attribu
         parser.parse_parsable('algorithm', DnsSecAlgorithmFactory)
         parser.parse_numeric('labels', 1)
         parser.parse_numeric('original_ttl', 4)
-        parser.parse_timestamp('signature_expiration', item_size=4)
-        parser.parse_timestamp('signature_inception', item_size=4)
+        parser.parse_numeric('signature_expiration', 4, cls._timestamp_to_date_time)
+        parser.parse_numeric('signature_inception', 4, cls._timestamp_to_date_time)
         parser.parse_numeric('key_tag', 2)
         parser.parse_parsable('signers_name', DnsNameUncompressed)
         parser.parse_raw('signature', parser.unparsed_length)
